@@ -2,10 +2,13 @@ _T = ("runtime monitoring with controlled schedules: real rpc.Engine over harnes
       "goroutines held at fakes / verifhook points and released in scripted (DFS-enumerated), PCT-randomized and free-running orders; "
       "offline trace checker on the boundary event log; race detector")
 PROPS = {
-    "C24": dict(engine="rpcmon", race=True, level="exploration", design="C24", technique=_T,
+    "C24": dict(engine="rpcmon", race=True, also=[dict(engine="mthandle")], level="exploration", design="C24", technique=_T,
                 text="Every Output.Decode must carry the payload addressed to its own call, happen at most once and lie entirely inside the call/return interval of its Do; "
                      "a nil return needs exactly one finished decode, an rpc error must be the one notified for that id; scripted hold-the-decoder-open family over every exit path of Do, "
-                     "bounded exhaustive enumeration of stimulus orders for N=1,2, PCT and free-running schedules for N<=4.",
+                     "bounded exhaustive enumeration of stimulus orders for N=1,2, PCT and free-running schedules for N<=4. "
+                     "Connection arm (engine mthandle): K=1..6 concurrent Conn.Invoke on a real mtproto.Conn, every request answered exactly once by rpc_result(result | gzip_packed(result) | "
+                     "rpc_error | gzip_packed(rpc_error)) or bad_msg_notification with unique content, bare / in containers / under outer gzip, hook path and real read loop; each Invoke must return "
+                     "exactly its own result bytes or exactly its own error (tgerr code+message / bad-message code).",
                 note="Bounded depth and N; settling trusts goroutine states from runtime.Stack; harness fakes trusted. Needs hook patch patches/rpcmon/hook-rpc-engine-points.diff.",
                 watchdog={"quick": 600, "thorough": 3 * 3600}),
     "C25": dict(engine="rpcmon", race=True, level="exploration", design="C25", technique=_T,
